@@ -21,6 +21,7 @@
 //! token numbers the *real* tokenizer produced, query text by the AST `QueryType::parse` produced,
 //! scores by the bit patterns the real code returned.
 
+use crate::conc::{COp, Workload, new_index, next_prefix, run_threads};
 use crate::query::{Tree, ast_line, read_tree};
 use crate::store::{MemStore, W, decode_bucket, decode_meta};
 use anda_db_tfs::{BM25Config, BM25Index, BM25Params, BucketObject, QueryType, TokenizerChain, collect_tokens, default_tokenizer};
@@ -45,6 +46,7 @@ pub struct CaseResult {
     pub score_bits_differ_between_calls: u64,
     pub searches: u64,
     pub crash_prefixes: u64,
+    pub schedules: u64,
     pub canon: String,
 }
 
@@ -1031,5 +1033,232 @@ impl<'m> World<'m> {
             self.corr(what, &l, "ok");
         }
         self.corr(what, "adopt", &imp);
+    }
+
+    // ------------------------------------------------------------------------------------------
+    // L3: interleavings at the yield points
+    // ------------------------------------------------------------------------------------------
+
+    fn cop_model(&mut self, op: &COp) -> String {
+        match op {
+            COp::Ins(id, text) => format!("ins {id} {}", self.tf_line(text)),
+            COp::Rem(id, text) => format!("rem {id} {}", self.tf_line(text)),
+            COp::Purge(ids) => format!("purge {}", dash(join(ids.iter(), ","))),
+            COp::Compact => "compact".into(),
+        }
+    }
+
+    fn cop_naive(&mut self, naive: &mut Naive, op: &COp) -> String {
+        match op {
+            COp::Ins(id, text) => {
+                let tf = self.tokens(text);
+                if tf.is_empty() {
+                    "err:tokenize".into()
+                } else if naive.docs.contains_key(id) {
+                    "err:exists".into()
+                } else {
+                    naive.on_insert(*id, tf.keys().cloned().collect(), tf.values().sum());
+                    "ok".into()
+                }
+            }
+            COp::Rem(id, text) => {
+                let toks = self.token_set(text);
+                naive.on_remove(*id, &toks).to_string()
+            }
+            COp::Purge(ids) => ids.iter().collect::<BTreeSet<_>>().into_iter().filter(|i| naive.on_purge(**i)).count().to_string(),
+            COp::Compact => "compacted".into(),
+        }
+    }
+
+    /// the oracle's rendering of what `loaded_line` observes
+    fn naive_line(&mut self, naive: &Naive) -> String {
+        let mut per: BTreeMap<usize, BTreeSet<u64>> = BTreeMap::new();
+        for (id, (toks, _)) in &naive.docs {
+            for t in toks {
+                let n = self.num(t);
+                per.entry(n).or_default().insert(*id);
+            }
+        }
+        let terms: Vec<String> = per.iter().map(|(n, ids)| format!("{n}={}", ids.iter().map(|i| i.to_string()).collect::<Vec<_>>().join("+"))).collect();
+        format!(
+            "n={} avg={} docs={} terms={}",
+            naive.docs.len(),
+            naive.avg_bits(),
+            dash(join(naive.docs.iter().map(|(i, (_, n))| format!("{i}:{n}")), ",")),
+            dash(terms.join(","))
+        )
+    }
+
+    /// All interleavings (up to `cap` schedules) of the workload's threads at the yield points.
+    pub fn explore(&mut self, w: &Workload, cap: u64) -> bool {
+        // depth-first over the schedule tree; when the tree is larger than the budget, another half
+        // budget walks it from the other end ("last enabled worker first")
+        let mut complete = true;
+        for (prefer_last, budget) in [(false, cap), (true, cap / 2)] {
+            let mut prefix: Vec<usize> = Vec::new();
+            let mut runs = 0u64;
+            let mut exhausted = false;
+            loop {
+                let Some((sched, enabled)) = self.run_conc(w, &prefix, prefer_last) else { break };
+                runs += 1;
+                self.res.schedules += 1;
+                if self.stop || !self.res.oracle.is_empty() {
+                    break;
+                }
+                match next_prefix(&sched, &enabled, prefer_last) {
+                    Some(p) => {
+                        if runs >= budget {
+                            break;
+                        }
+                        prefix = p;
+                    }
+                    None => {
+                        exhausted = true;
+                        break;
+                    }
+                }
+            }
+            if exhausted {
+                complete = true;
+                break;
+            }
+            complete = false;
+            if self.stop || !self.res.oracle.is_empty() {
+                break;
+            }
+        }
+        self.hit(&format!("conc:{}", if complete { "exhaustive" } else { "capped" }));
+        complete
+    }
+
+    /// one schedule: fresh index, sequential setup + flush, the threads under the schedule, then
+    /// results / final answers / flush round trip against the oracle and the model
+    fn run_conc(&mut self, w: &Workload, prefix: &[usize], prefer_last: bool) -> Option<(Vec<usize>, Vec<Vec<usize>>)> {
+        let what_base = w.line();
+        self.cfg = BM25Config { bucket_overload_size: if w.zero { 0 } else { BM25Config::default().bucket_overload_size }, ..BM25Config::default() };
+        let index = new_index(w.zero);
+        let mut naive = Naive::default();
+        self.corr(&what_base, &format!("cinit {}", if w.zero { "zero" } else { "large" }), "ok");
+        for op in &w.setup {
+            let imp = op.apply(&index);
+            let exp = self.cop_naive(&mut naive, op);
+            if imp != exp {
+                self.oracle("conc-setup-result", &what_base, exp, imp.clone());
+            }
+            let line = format!("cseq {}", self.cop_model(op));
+            self.corr(&what_base, &line, &imp);
+        }
+        let mut store = MemStore::default();
+        match Self::record_flush(&index) {
+            Ok((ws, _)) => {
+                for wr in &ws {
+                    store.apply(wr);
+                }
+            }
+            Err(e) => {
+                self.oracle("flush-error", &what_base, "setup flush succeeds".into(), e);
+                return None;
+            }
+        }
+        self.corr(&what_base, "cflushed", "ok");
+        for op in &w.threads {
+            let line = format!("cthr {}", self.cop_model(op));
+            self.corr(&what_base, &line, "ok");
+        }
+        let out = run_threads(std::sync::Arc::new(index), &w.threads, prefix, prefer_last);
+        let what = format!("{what_base} | schedule {}", join(out.sched.iter(), ","));
+        self.res.canon.push_str(&what);
+        self.res.canon.push('\n');
+        if let Some(d) = &out.deadlock {
+            self.oracle("conc-deadlock", &what, "every thread finishes".into(), d.clone());
+            return None;
+        }
+        if out.results.iter().any(|r| r == "panic") {
+            self.oracle("conc-panic", &what, "no panic".into(), format!("{:?}", out.results));
+            return None;
+        }
+        self.res.nontrivial = true;
+        let index = out.index.clone();
+        // ---- model: the same schedule
+        self.corr(&what, &format!("crun {}", dash(join(out.sched.iter(), ","))), &format!("res={} quiescent=true", out.results.join(";")));
+        // ---- final observations, the flush and its round trip
+        let live = self.loaded_line(&index);
+        let (ws, _) = match Self::record_flush(&index) {
+            Ok(x) => x,
+            Err(e) => {
+                self.oracle("flush-error", &what, "flush succeeds".into(), e);
+                return None;
+            }
+        };
+        let mut layout: Vec<String> = Vec::new();
+        for wr in &ws {
+            if let W::Obj(_, bytes) = wr {
+                match decode_bucket(bytes) {
+                    Some(b) => {
+                        let mut ts: Vec<usize> = b.postings.keys().map(|t| self.num(t)).collect();
+                        ts.sort();
+                        layout.push(if ts.is_empty() { "e".into() } else { ts.iter().map(|t| t.to_string()).collect::<Vec<_>>().join("+") });
+                    }
+                    None => layout.push("undecodable".into()),
+                }
+            }
+        }
+        layout.sort();
+        self.corr(&what, "cstate", &format!("{live} dirty={} lost=- gate=0/false", dash(layout.join(","))));
+        let fired_before = self.oracle_count;
+        let d0 = store.clone();
+        for wr in &ws {
+            store.apply(wr);
+        }
+        match self.load(&store) {
+            Ok(ix) => {
+                let loaded = self.loaded_line(&ix);
+                if loaded != live {
+                    self.oracle("conc-flush-load-differs", &what, format!("in memory: {live}"), format!("after flush + load_all: {loaded}"));
+                }
+            }
+            Err(e) => self.oracle("conc-flush-load-differs", &what, "load succeeds".into(), e),
+        }
+        // ---- oracle: results and final answers are those of some sequential order
+        let n = w.threads.len();
+        let mut perm: Vec<usize> = (0..n).collect();
+        let mut found = false;
+        let mut tried: Vec<String> = Vec::new();
+        permute(&mut perm, 0, &mut |p: &[usize]| {
+            if found {
+                return;
+            }
+            let mut nv = naive.clone();
+            let mut res = vec![String::new(); n];
+            for &i in p {
+                res[i] = self.cop_naive(&mut nv, &w.threads[i]);
+            }
+            let line = self.naive_line(&nv);
+            if res == out.results && line == live {
+                found = true;
+            } else {
+                tried.push(format!("order {p:?}: res={} {line}", res.join(";")));
+            }
+        });
+        if !found {
+            self.oracle("conc-not-sequential", &what, tried.join(" | "), format!("res={} {live}", out.results.join(";")));
+        }
+        // ---- model: flush bytes, every prefix, snapshot
+        self.corr(&what, "csync", "ok");
+        let oracle_fired = self.oracle_count > fired_before;
+        self.model_flush(&what, &d0, &ws, oracle_fired);
+        Some((out.sched, out.enabled))
+    }
+}
+
+fn permute(p: &mut Vec<usize>, k: usize, f: &mut dyn FnMut(&[usize])) {
+    if k == p.len() {
+        f(p);
+        return;
+    }
+    for i in k..p.len() {
+        p.swap(k, i);
+        permute(p, k + 1, f);
+        p.swap(k, i);
     }
 }
